@@ -46,6 +46,18 @@ CHECKS = {
    note="Trusted: Coq kernel; translators T4/T4b (T4b matches bodies against a table of known forms, fail closed); calculus facts encoded in Dq/Dp (user gradient is the gradient of the user density; matrix-class gradients correct = C11; vjp/mhp chain rules).",
    technique="Coq proof by computation over a symbolic model regenerated from source (ast translator, MRO resolved in Coq) + finite-difference search",
    design="5/C05"),
+ "C02": dict(
+   cat="proof",
+   text="Coq theorems (no axioms) about the integrator schedules regenerated from src/mici/integrators.py by translator T3 on every run (which also checks, statement for statement, that each implicit / constrained sub-step has the body - solve, explicit update, reverse check and what it compares - that the component semantics of Model/Integrators.v describe): for ANY exact component flows, any n and step size, n leapfrog steps / flip / n steps return to the start (leapfrog_reversible), likewise for symmetric compositions with ANY free coefficients (symmetric_composition_reversible, coefficient_derivation_palindromic); with a deterministic solver oracle returning exact fixed points or an error, a returned step of the generalised leapfrog, the implicit midpoint and the constrained leapfrog (any inner step count, given the projection/retraction facts of C04 as hypotheses) is exactly reversed by the step with negated direction, otherwise the step is an error (implicit_leapfrog_step_reversible, implicit_midpoint_step_reversible, constrained_leapfrog_step_reversible: each reverse solve was already performed and compared by a check of the forward run). Ties: T3; recorded sub-steps (component, order, time fraction) of every real integrator in both directions and Model coefficients vs the real coefficient lists; search: reversal residuals on every integrator x system x solver and on strongly curved manifolds with large steps, loud failures counted, input states hashed.",
+   note="Trusted: Coq kernel; translator T3 (fail closed: exact statement match of sub-step bodies); exact arithmetic with solver tolerance 0 (numerical slack explored with tolerance 5e-6); component flows exact (C07); geometric hypotheses ca_inv, ca_cot, retract_back for the constrained integrator (C04).",
+   technique="Coq proof about schedules regenerated from source (ast translator) with a solver-oracle semantics + recorded-call correspondence + reversal search",
+   design="5/C02"),
+ "C06": dict(
+   cat="proof",
+   text="Coq theorems (no axioms) about the schedules regenerated from src/mici/integrators.py (T3): for ANY free coefficients the derived coefficient list is palindromic and its a- and b-coefficients each sum to one (coefficients_consistent_and_palindromic, symmetric_composition_consistent); every integrator's generated schedule gives each Hamiltonian component total fraction 1 and is self-adjoint (schedules_consistent, by computation); in the free algebra of the two component vector fields modulo t^3 the product of the sub-flows of leapfrog and of every symmetric composition equals exp(t(X1+X2)) (leapfrog_order2, symmetric_composition_order2): local error O(eps^3). Ties: T3 and the recorded sub-step correspondence; search: observed local order >= 2.5 against an independent RK4 reference for all unconstrained integrator x system pairs, the closed-form geodesic flow on the sphere for the constrained integrator (all solvers / inner step counts) and agreement across inner step counts.",
+   note="Trusted: Coq kernel, translator T3. Assumed: component flows are exact (C07) and analytic (Lie series converge); for the implicit integrators the order statement is the consistency + self-adjointness of the schedule (a symmetric consistent one-step method has even order) - the second-order conclusion for them is explored by the search, not formalised.",
+   technique="Coq proof (list algebra + truncated free algebra) about schedules regenerated from source + convergence-order search",
+   design="5/C06"),
 }
 
 NOT_YET = "check not built yet in this round (design in DESIGN.md section 5); no claim is made"
